@@ -168,14 +168,14 @@ func c13MkEnv(v int) map[string]TV {
 	return map[string]TV{
 		"n1": tvI([]int{7, 9, 4, 12}[v]), "n2": tvI([]int{3, 2, 4, 5}[v]), "n0": tvI(0), "ng": tvI([]int{-4, -1, -6, -2}[v]),
 		"n65": tvI(65), "i64": i64(12), "i32": {K: "int32", I: 6}, "u8": {K: "uint8", U: 200},
-		"f1": tvF([]float64{2.5, 1.5, 0.75, 4.5}[v]), "f2": tvF([]float64{0.5, 0.25, 0.5, 1.5}[v]), "f32": {K: "float32", F: 1.5}, "fi": tvF(4), "fbig": tvF(2500000), "fsmall": tvF(0.00001),
+		"f1": tvF([]float64{2.5, 1.5, 0.75, 4.5}[v]), "f2": tvF([]float64{0.5, 0.25, 0.5, 1.5}[v]), "f32": {K: "float32", F: 1.5}, "f32b": {K: "float32", F: 1.1}, "fi": tvF(4), "fbig": tvF(2500000), "fsmall": tvF(0.00001),
 		"s1": tvS([]string{"hi", "yo", "abc", "Hi"}[v]), "s2": tvS("bob ray"), "se": tvS(""), "sp": tvS("  pad  "),
 		"selfname": tvS("selfname"), "sn": tvS("42"), "sf": tvS("2.5"), "sb": tvS("true"), "sneg": tvS("-3"), "sbad": tvS("bad"), "sx": tvS("a<b&c"),
 		"bt": tvB(true), "bf": tvB(false), "b1": tvB(v&1 == 1), "b2": tvB(v&2 == 2),
 		"nl": tvNil(), "t": tvS("tee"),
 		"m": tvMap(map[string]TV{"x": tvI(5 + v), "name": tvS("bob"), "ok": tvB(true), "off": tvB(false), "r": tvF(1.25),
 			"in": tvMap(map[string]TV{"k": tvI(9 - v), "w": tvS("deep")})}),
-		"l": tvList(tvI(10+v), tvI(20), tvI(30)), "ls": tvKind("[]string", tvS("p"), tvS("q")), "li": tvKind("[]int", tvI(4), tvI(5+v)),
+		"l": tvList(tvI(10+v), tvI(20), tvI(30)), "ls": tvKind("[]string", tvS("p"), tvS("q")), "li": tvKind("[]int", tvI(4), tvI(5+v)), "li1": tvKind("[]int", tvI(9)),
 		"mss": {K: "map[string]string", M: map[string]TV{"k": tvS("v")}}, "msi": {K: "map[string]int", M: map[string]TV{"k": tvI(8)}},
 		"st": {K: "Item", M: item}, "ps": {K: "*Item", M: item},
 		"ts": {K: "time", I: 1700000000},
@@ -902,6 +902,17 @@ func init() {
 				return a[0], c13Und("struct-parameter-with-other-argument")
 			}
 			return c13VI(a[0].TV.M["count"].I * 10), ok
+		}})
+	// an array parameter: Go converts a slice that is long enough, a shorter one is an impossible conversion
+	c13Reg(&c13Fn{Name: "hArr2", Params: []string{"any"}, Go: func(a [2]int) int { return a[0]*10 + a[1] },
+		Ref: func(a []c13V) (c13V, c13St) {
+			if a[0].T != "comp" || a[0].TV.K != "[]int" {
+				return a[0], c13Und("array-parameter-with-other-argument")
+			}
+			if len(a[0].TV.L) < 2 {
+				return a[0], c13St{Err: "conversion", Fn: "hArr2"}
+			}
+			return c13VI(a[0].TV.L[0].I*10 + a[0].TV.L[1].I), ok
 		}})
 	c13Reg(&c13Fn{Name: "hCtxJoin", Ctx: true, Variadic: "string", Go: func(c *vuego.VueContext, p ...string) string { return "c:" + strings.Join(p, "~") },
 		Ref: func(a []c13V) (c13V, c13St) { return c13VS("c:" + c13JoinV(a, "~")), ok }})
